@@ -4,7 +4,7 @@
 From Coq Require Import List NArith ZArith Bool.
 From Qryn Require Import model.Ingest model.PushHandler model.IngestSpec model.IngestSched proofs.IngestBase proofs.IngestAck
   proofs.IngestSpecProofs proofs.IngestHandler proofs.IngestDrain proofs.IngestLive proofs.IngestLiveAll proofs.IngestRows
-  proofs.IngestWait.
+  proofs.IngestWait proofs.IngestStop.
 Import ListNotations.
 
 (* For every configuration (workers of any kind / round-robin group / maxQueueSize, retry count), every
@@ -163,3 +163,10 @@ Proof.
   intros F. eapply bounded_wait; eauto.
 Qed.
 Print Assumptions a_held_promise_waits_at_most_seven_worker_steps.
+
+(* Why the liveness theorems exclude Stop: whatever happens to a stopped worker afterwards (any action list), its open
+   batch stays as it is -- Run has returned, nobody calls swapBuffers, the promises in svc.results are never completed. *)
+Theorem stopped_worker_never_flushes : forall tr sv sv' vs,
+  running sv = false -> srun sv tr = Some (sv', vs) -> running sv' = false /\ results sv' = results sv.
+Proof. exact IngestStop.stopped_worker_never_flushes. Qed.
+Print Assumptions stopped_worker_never_flushes.
